@@ -58,7 +58,7 @@ func genLinkLoss(r *rand.Rand, i int) c13Case {
 		c.Ops = append(c.Ops, c13Op{Op: "quiesce"}, c13Op{Op: "drop", Link: d})
 		sends(2 + r.Intn(3))
 	}
-	c.Ops = append(c.Ops, c13Op{Op: "quiesce"})
+	c.Ops = append(c.Ops, c13Op{Op: "quiesce"}, c13Op{Op: "terminate"})
 	return c
 }
 
@@ -79,7 +79,7 @@ func corpusLinkLoss() []c13Case {
 			c.Ops = append(c.Ops, c13Op{Op: "send", Pair: k})
 		}
 	}
-	c.Ops = append(c.Ops, c13Op{Op: "quiesce"})
+	c.Ops = append(c.Ops, c13Op{Op: "quiesce"}, c13Op{Op: "terminate"})
 	return []c13Case{c}
 }
 
@@ -115,6 +115,9 @@ func monitorLinkLoss(c c13Case, o c13Obs) []string {
 		fails = append(fails, fmt.Sprintf("sends %v were delivered more than once", dup))
 	}
 	fails = append(fails, o.SendErr...)
+	if len(o.OpenAfterTerminate) > 0 {
+		fails = append(fails, fmt.Sprintf("Terminate of the connection left pooled links %v open after another link of the pool had been lost: the peer never sees the connection go down", o.OpenAfterTerminate))
+	}
 	return fails
 }
 
